@@ -14,6 +14,6 @@ echo "== demo on /repo (expect 0)"
 echo "== checks with the patch applied to /repo"
 git -C /repo apply $sd/patch.diff || { echo "PATCH DOES NOT APPLY"; exit 1; }
 for p in $prop "$@"; do
-  GINVERIF_NO_EVIDENCE=1 /verif/check $p --tier quick > /tmp/seedcheck_${id}_$p.log 2>&1; echo "$p exit=$? $(grep -m1 '^  \|ANALYSIS' /tmp/seedcheck_${id}_$p.log | cut -c1-260)"
+  GINVERIF_NO_EVIDENCE=1 GINVERIF_REPLAY_DIR=/tmp/seedreplay /verif/check $p --tier quick > /tmp/seedcheck_${id}_$p.log 2>&1; echo "$p exit=$? $(grep -m1 '^  \|ANALYSIS' /tmp/seedcheck_${id}_$p.log | cut -c1-260)"
 done
 git -C /repo checkout -- . ; git -C /repo status --short | head -3
